@@ -65,6 +65,12 @@ def index_specs(ndim, n_rows, n_cols, batch, tier):
         specs.append([("T", 2, 0), ("S", None, None, None), ("T", 2, C)])
         specs.append([-1, ("T", 2, R), 0])
         specs.append([("L", [0, 1]), ("L", [0, -1]), ("S", None, None, None)])
+    # slices with clamped / over-long / negative-over-long bounds NEXT TO absorbed tensor indices (the _get_indices path)
+    if batch:
+        for sl in (("S", 1, 100, None), ("S", -100, None, None), ("S", 0, 99, 2), ("S", None, None, -1) if False else ("S", 0, n_cols, None)):
+            specs.append([("T", 2, 0), ("T", 2, R), sl])
+            specs.append([("T", 2, 0), sl, ("T", 2, C)])
+            specs.append([sl, ("T", 2, R), ("T", 2, C)])
     # rank-2 mutually broadcasting tensors (matrix position among them)
     specs.append([full] * (ndim - 2) + [("T2", [2, 1], R), ("T2", [1, 2], C)])
     specs.append([full] * (ndim - 2) + [("T2", [2, 2], R), ("T2", [2, 2], C)])
@@ -103,6 +109,8 @@ def cells(tier, seed):
             if name in ("BlockDiagDim", "TransposePermutation") and (batch != () or n > 2):
                 continue
             if "nested" in b.tags and (n > 2 or len(batch) > 1):
+                continue
+            if "fixedbatch" in b.tags and (n != 2 or batch):
                 continue
             if "eig" in b.tags:
                 continue  # eigen-parametrised variants of Dense / Kronecker / Diag: indexing is covered by the plain builders
